@@ -9,6 +9,20 @@ import warnings
 from collections import Counter
 
 
+# Clauses that are filed under another property's name but are also part of this property's statement.
+ALSO = {
+    "C02": ("C03.cb_completes",),
+    "C03": ("C02.end_cb_once", "C11.cb_id"),
+    "C04": ("C10.group_ids", "C11.unique"),
+    "C05": ("C11.unique",),
+    "C13": ("C03.counter_sum", "C03.state_probe"),
+}
+
+
+def mine(cid, clause):
+    return clause.split(".")[0] == cid or any(clause.startswith(a) for a in ALSO.get(cid, ()))
+
+
 def run_unit(cid, tier, seed, fam, start, count):
     from . import checks
 
@@ -40,7 +54,7 @@ def run_unit(cid, tier, seed, fam, start, count):
         if res.get("nontrivial"):
             sigs.add(res["sig"])
         for v in res.get("viol", []):
-            if v["clause"].split(".")[0] != cid:
+            if not mine(cid, v["clause"]):
                 continue
             if len(viol) < 6:
                 v = dict(v)
@@ -83,7 +97,7 @@ def replay(cid, path):
     print(json.dumps(v["case"]))
     for line in res.get("log", []):
         print(line)
-    bad = [x for x in res.get("viol", []) if x["clause"].split(".")[0] == cid]
+    bad = [x for x in res.get("viol", []) if mine(cid, x["clause"])]
     for x in bad:
         print(f"# {x['clause']}: {x['msg']} (triggers {x.get('triggers')})")
     print("replayed:", "VIOLATION reproduced" if bad else "no violation on this tree")
